@@ -65,8 +65,12 @@ def main():
     ap.add_argument("--workers", type=int, default=10)
     ap.add_argument("--only")
     ap.add_argument("--out", default="/tmp/mutation_audit.jsonl")
+    ap.add_argument("--ops", default="12", help="operator sets to apply: any of 1, 2, 3")
     a = ap.parse_args()
-    muts = MS.enumerate_mutants("/repo", a.only, MS.OPS) + MS.enumerate_mutants("/repo", a.only, MS.OPS2)
+    muts = []
+    for k, ops in (("1", MS.OPS), ("2", MS.OPS2), ("3", MS.OPS3)):
+        if k in a.ops:
+            muts += MS.enumerate_mutants("/repo", a.only, ops)
     seen = set()
     uniq = []
     for m in muts:
